@@ -56,7 +56,7 @@ impl ScriptIo {
                 match ans.as_str() {
                     "ok" => Poll::Ready(Ok(())),
                     "pending" => Poll::Pending,
-                    _ => Poll::Ready(Err(io::Error::new(io::ErrorKind::Other, "scripted"))),
+                    _ => Poll::Ready(Err(io::Error::new(crate::rd::scripted_kind(), "scripted"))),
                 }
             }
         }
@@ -87,7 +87,7 @@ impl AsyncWrite for ScriptIo {
                 }
                 _ => {
                     self.log.push(json!({"c": "w", "a": "err", "k": 0}));
-                    Poll::Ready(Err(io::Error::new(io::ErrorKind::Other, "scripted")))
+                    Poll::Ready(Err(io::Error::new(crate::rd::scripted_kind(), "scripted")))
                 }
             },
         }
@@ -111,7 +111,7 @@ fn poll_res(p: Poll<Result<(), io::Error>>) -> String {
         Poll::Pending => "pending".into(),
         Poll::Ready(Ok(())) => "ok".into(),
         Poll::Ready(Err(e)) if e.kind() == io::ErrorKind::WriteZero => "writezero".into(),
-        Poll::Ready(Err(e)) if e.kind() == io::ErrorKind::Other => "ioerr".into(),
+        Poll::Ready(Err(e)) if crate::rd::is_scripted_kind(e.kind()) => "ioerr".into(),
         Poll::Ready(Err(e)) => format!("err:{:?}", e.kind()),
     }
 }
